@@ -485,7 +485,9 @@ func subCloseEntries() mon.Sub {
 }
 
 var cwSizes = []int{0, 1, 60, 62, 63, 64, 124, 125, 126, 200}
-var cwBufs = []int{0, 8, 16, 127, 131, 133, 200, 4096} // 0 = NewControlWriter
+// 0 = NewControlWriter; the sizes above 65535 are slabs of an application's own pool (the header reservation of the
+// buffered writers depends on the buffer size: the tiers change at 65539 / 65543 bytes)
+var cwBufs = []int{0, 8, 16, 127, 131, 133, 200, 4096, 65539, 65540, 65543, 65544, 65550, 131072, 1 << 20}
 
 func subControlWriter() mon.Sub {
 	nseq := 1
@@ -500,7 +502,13 @@ func subControlWriter() mon.Sub {
 			side := []ref.Side{ref.SideServer, ref.SideClient}[c.I/len(cwBufs)%2]
 			op := []byte{ref.OpPing, ref.OpPong, ref.OpClose}[c.I/len(cwBufs)/2]
 			st := wsx.State(side, false, false)
-			for seq := 0; seq < nseq; seq++ {
+			step := 1
+			var bigBuf []byte
+			if bufN > 4096 {
+				step = 7 // (a sample of the write sequences for the slabs: 7 is coprime to the 11 choices per write)
+				bigBuf = make([]byte, bufN)
+			}
+			for seq := 0; seq < nseq; seq += step {
 				// decode the sequence: up to 4 writes; a Flush is inserted after write #flushAt as well as at the end
 				var sizes []int
 				x := seq
@@ -513,7 +521,7 @@ func subControlWriter() mon.Sub {
 					sizes = append(sizes, cwSizes[d])
 				}
 				for flushAt := -1; flushAt < len(sizes)-1; flushAt++ {
-					if !runControlWriter(c, bufN, side, st, op, sizes, flushAt) {
+					if !runControlWriter(c, bufN, side, st, op, sizes, flushAt, bigBuf) {
 						return
 					}
 				}
@@ -524,14 +532,18 @@ func subControlWriter() mon.Sub {
 	}
 }
 
-func runControlWriter(c *mon.C, bufN int, side ref.Side, st ws.State, op byte, sizes []int, flushAt int) bool {
+func runControlWriter(c *mon.C, bufN int, side ref.Side, st ws.State, op byte, sizes []int, flushAt int, bigBuf []byte) bool {
 	c.Count(1)
 	dst := xport.NewRec()
 	var w *wsutil.ControlWriter
 	if bufN == 0 {
 		w = wsutil.NewControlWriter(dst, st, ws.OpCode(op))
 	} else {
-		w = wsutil.NewControlWriterBuffer(dst, st, ws.OpCode(op), make([]byte, bufN))
+		buf := bigBuf
+		if len(buf) != bufN {
+			buf = make([]byte, bufN)
+		}
+		w = wsutil.NewControlWriterBuffer(dst, st, ws.OpCode(op), buf)
 	}
 	det := map[string]interface{}{"buffer": bufN, "side": sideName(side), "opcode": op, "writes": sizes, "flush_after_write": flushAt}
 	var trace []string
